@@ -14,7 +14,7 @@ META = {
     "{gap, call of each allele, flat}) in the bound, evaluated on posterior_mode (all flag combinations), genotype_likelihoods/"
     "posteriors, posterior_allele_frequencies, alternate_dosage_posteriors; plus call_exact.program.call_sample_genotypes for "
     "every subset of the optional report fields; non-trivial = ploidy>=2, >=2 haplotypes and >=1 read",
-    "bound": {"quick": "P<=4, H<=4 rows over 2 SNVs with (2,3) alleles, <=2 reads; 128 report subsets (all 64 FORMAT x {no INFO, all INFO})",
+    "bound": {"quick": "P<=4, H<=4 rows over 2 SNVs with (2,3) alleles, <=2 reads (soft alphabet; plus an alphabet of error-free calls giving exact zero likelihoods); 128 report subsets (all 64 FORMAT x {no INFO, all INFO})",
               "thorough": "<=3 reads (on a reduced alphabet), all 4096 report subsets"},
     "assumptions": ["float64 paths rtol 1e-9; float32 GL path |dlog p| <= 8*2^-23*max|llk| + 1e-6", "exact ties: any maximiser accepted"],
     "trusted_base": ["vmc/refmodel posterior"],
@@ -38,7 +38,11 @@ def letters(seed, reduced=False):
     q0 = [0.9, 0.93, 0.97, 0.85, 0.99][seed % 5]
     q1 = [0.95, 0.88, 0.91, 0.97, 0.9][seed % 5]
     s0, s1 = site_letters(NA[0], q0), site_letters(NA[1], q1)
-    if reduced:
+    if reduced == 2:
+        # error-free calls (probability exactly 1 / 0): genotypes lacking the called allele have likelihood exactly zero
+        s0 = [s0[0], ("!0", [1.0, 0.0, 0.0]), ("!1", [0.0, 1.0, 0.0])]
+        s1 = [s1[0], ("!0", [1.0, 0.0, 0.0]), ("!2", [0.0, 0.0, 1.0]), s1[2]]
+    elif reduced:
         s0, s1 = s0[:3], s1[1:4]
     return [(a[0] + b[0], [a[1], b[1]]) for a in s0 for b in s1]
 
@@ -83,6 +87,8 @@ def plan(tier, seed):
         for H in (1, 2, 3, 4):
             for si, hs in enumerate(hapsets(H)):
                 jobs.append(("fn", P, H, si, seed, 2, 0, math.comb(H + P - 1, P) * 250))
+                if P >= 2 and H >= 2 and (tier == "thorough" or si % 3 == 0):
+                    jobs.append(("fn", P, H, si, seed, 2, 2, math.comb(H + P - 1, P) * 100))
                 if tier == "thorough":
                     jobs.append(("fn", P, H, si, seed, 3, 1, math.comb(H + P - 1, P) * 300))
     n_sub = 128 if tier == "quick" else 4096
@@ -181,7 +187,7 @@ def job_fn(job):
     payload = {"kind": "job", "job": job}
     hs = hapsets(H)[si]
     haps = np.array(hs)
-    L = letters(seed, bool(reduced))
+    L = letters(seed, reduced)
     flagsets = list(itertools.product((False, True), repeat=3))
     case = 0
     for fname, fr in freq_opts(H):
@@ -199,6 +205,10 @@ def job_fn(job):
                         R = np.array(reads, float)
                         C = np.array(counts)
                     rref = [[None if all(v != v for v in s) else s for s in rd] for rd in reads]
+                    if reduced == 2 and all(ref.dm_prior(g, fr or [1.0 / H] * H, F) == 0 or ref.llk(rref, counts, [hs[a] for a in g]) == -math.inf
+                                            for g in ref.multisets(range(H), P)):
+                        r.count("no-genotype-possible")  # the reads exclude every genotype: no posterior exists
+                        continue
                     gens, post, llks = refpost(hs, P, fr, F, rref, counts)
                     order = sorted(gens, key=lambda g: tuple(reversed(g)))
                     afp, aop = functionals(gens, post, H, P)
